@@ -209,8 +209,8 @@ fn histories(ctx: &mut Ctx) {
                                                 }
                                                 Ok(Some(Err(e))) => {
                                                     log.push(format!("Err({})", e.short()));
-                                                    if let NErr::InvalidTagSize { pos, id, size } = &e {
-                                                        if *pos == el_abs && *id == el_id && *size as u64 == s {
+                                                    if let NErr::InvalidTagSize { pos, id, .. } = &e {
+                                                        if *pos == el_abs && *id == el_id {
                                                             size_error = true;
                                                         }
                                                         break;
@@ -480,7 +480,7 @@ pub fn run(ctx: &mut Ctx) {
                                             // rejected: a corruption error positioned at (or before) the element, nothing emitted for it
                                             let emitted_el = r.obs.items.iter().any(|(it, off)| *off == el_start && it.id() == *id && !it.is_end());
                                             let rejected = match &r.obs.term {
-                                                Term::Err(NErr::InvalidTagSize { pos, id: i, size }) => (*pos == el_start && *i == *id && *size as u64 == s) || *pos < el_start,
+                                                Term::Err(NErr::InvalidTagSize { pos, id: i, .. }) => (*pos == el_start && *i == *id) || *pos < el_start,
                                                 Term::Err(NErr::InvalidTagData { .. }) | Term::Err(NErr::InvalidTagId { .. }) | Term::Err(NErr::Hierarchy { .. }) | Term::Err(NErr::OversizedChild { .. }) => true,
                                                 _ => false,
                                             };
